@@ -39,6 +39,13 @@ func IsEscapedPunctuation
   ensures result <==> (source[i] == '\\' && i < len(source)-1 && isPunct(source[i+1]))
   modifies nothing
 
+// no rune start at or before pos: utf8.RuneError (C01: used on arbitrary, possibly invalid, bytes)
+func ToRune
+  requires pos < len(source)
+  modifies nothing
+  loop 0 inv i <= pos
+  loop 0 dec i + 1
+
 func TrimLeftSpaceLength
   ensures 0 <= result && result <= len(source)
   ensures forall k int :: 0 <= k && k < result ==> isSpace(source[k])
